@@ -139,8 +139,11 @@ class NullChecker:
             self._rd[fi] = ReachingDefs(fi)
         return self._rd[fi]
 
-    def guarded(self, fi, use_node, key, name_for_defs=None):
-        """Is the expression with normalised text `key` known non-None at use_node?"""
+    def guarded(self, fi, use_node, key, def_stmt=None):
+        """Is the expression with normalised text `key` known non-None at use_node?  With def_stmt (the
+        assignment that bound the possibly-None value to the name `key`) the question is asked per
+        definition: can the use be reached from that assignment without taking the non-None edge of a
+        test on the name and without the name being re-assigned?"""
         v = view(self.ctx, fi)
         pm = self.ctx.shared.setdefault("pm", {})
         if fi not in pm:
@@ -150,6 +153,29 @@ class NullChecker:
         u = v.node(use_node)
         if u is None:
             return False
+        if def_stmt is not None:
+            d = v.node(def_stmt)
+            if d is not None:
+                from .dataflow import defs_of_node
+                seen = set()
+                stack = [m for (m, l) in v.cfg.succ[d] if l != "exc"]
+                while stack:
+                    x = stack.pop()
+                    if x in seen:
+                        continue
+                    seen.add(x)
+                    if x is u:
+                        return False
+                    if x is not d and any(dd.name == key for dd in defs_of_node(x)):
+                        continue        # re-assigned: another definition's business
+                    if x.kind == "stmt" and isinstance(x.ast, ast.Assert) and True in nonnull_labels(x.ast.test, key):
+                        continue
+                    labs = nonnull_labels(x.ast, key) if x.kind == "cond" else set()
+                    for m, l in v.cfg.succ[x]:
+                        if l == "exc" or l in labs:
+                            continue
+                        stack.append(m)
+                return True
         rd = self.rd(fi)
         names = {x.id for x in ast.walk(ast.parse(key, mode="eval")) if isinstance(x, ast.Name)} if key else set()
         for c in v.cfg.nodes:
@@ -183,7 +209,7 @@ class NullChecker:
     def uses_of(self, fi, source_node, pm):
         """Yield (use_expr, key) for the places where the value of source_node flows: the node
         itself, and loads of a local name it is assigned to (while that definition reaches)."""
-        yield source_node, norm(source_node)
+        yield source_node, norm(source_node), None
         p = pm.get(id(source_node))
         targets = []
         if isinstance(p, ast.Assign) and p.value is source_node:
@@ -198,7 +224,7 @@ class NullChecker:
                 if isinstance(n, ast.Name) and n.id == t.id and isinstance(n.ctx, ast.Load):
                     defs = rd.at(n, t.id) or []
                     if any(d.node is p for d in defs):
-                        yield n, t.id
+                        yield n, t.id, p
 
 
 def check_nullable(ctx, rule, funcs, source_pred, describe, xref_only=False, xref=None):
@@ -221,11 +247,11 @@ def check_nullable(ctx, rule, funcs, source_pred, describe, xref_only=False, xre
             n_sources += 1
             ctx.count_sites()
             bad = False
-            for use, key in nc.uses_of(fi, node, pm):
+            for use, key, def_stmt in nc.uses_of(fi, node, pm):
                 sk = sink_kind(use, pm)
                 if sk is None:
                     continue
-                if nc.guarded(fi, use, key):
+                if nc.guarded(fi, use, key, def_stmt):
                     continue
                 bad = True
                 stmt = use
